@@ -74,7 +74,7 @@ STORES = ('store', 'store_input', 'store_final')      # context-level stores of 
 BINDERS = STORES + ('dummy_run',)                      # operations that bind a name (+ annotation)
 KEY_COMMITTERS = BINDERS + ('db_store_model', 'db_store_entry')         # operations whose acknowledgement commits the key
 TXN_KINDS = KEY_COMMITTERS + ('metadata', 'localfile', 'nmfiles')   # run database transactions
-READS = ('retrieve', 'retrieve_log', 'retrieve_name')
+READS = ('retrieve', 'retrieve_log', 'retrieve_name', 'db2_retrieve')
 NM_SUFFIXES = ('.lst', '.ext', '.phi', '.cov')
 NM_OK = (3, 4)       # pool entries whose key carries no results in any pool entry (see prepare)
 DUMMY = {}           # pool idx -> results JSON the dummy runner produces for this entry
@@ -567,6 +567,8 @@ def fmt_op(op):
         return f"retrieve_model_entry({POOL[op['model']]['name']!r})"
     if k == 'ctx_metadata':
         return f"{'sub1.' if op.get('sub') else ''}store_metadata(#{op['v']})"
+    if k in ('db2_store', 'db2_retrieve'):
+        return f"db2.{'store_model_entry' if k == 'db2_store' else 'retrieve_model_entry'}({POOL[op['model']]['name']})"
     return f"{'sub1.' if op.get('sub') else ''}{k}({POOL[op['model']]['name']})"
 
 
@@ -584,6 +586,7 @@ class Ref:
         self.res_writes = {}        # key -> [(results json, invoke seq, return seq)] acknowledged
         self.annot_writes = {}      # name -> [(text, invoke seq, return seq)] acknowledged writes
         self.ctx_meta = {}          # '' | 'sub1' -> index of the last acknowledged context metadata
+        self.db2 = {}               # key -> set of acceptable results JSON (second, bare database)
         self.clock = 0
 
     def copy(self):
@@ -598,6 +601,7 @@ class Ref:
         r.files = {k: set(v) for k, v in self.files.items()}
         r.res_writes = {k: list(v) for k, v in self.res_writes.items()}
         r.ctx_meta = dict(self.ctx_meta)
+        r.db2 = {k: set(v) for k, v in self.db2.items()}
         r.clock = self.clock
         return r
 
@@ -681,6 +685,9 @@ def apply_ack(ref, op):
         ref.note_results(e['key'], NMRES[e['idx']], op.get('_times'))
     elif k == 'ctx_metadata':
         ref.ctx_meta[SUB if op.get('sub') else ''] = op['v']
+    elif k == 'db2_store':
+        e = POOL[op['model']]
+        ref.db2.setdefault(e['key'], set()).add(e['results_json'] if e['has_results'] else None)
     elif k == 'log':
         ref.log.append((op['sev'], log_path_of(op), op['msg']))
         ref.log_times.append(op.get('_times'))
@@ -739,6 +746,14 @@ def do_op(ctx, op, localfile):
         execute_model(_P['ModelEntry'].create(e['model']), ctx)
     elif k == 'ctx_metadata':
         ctx.store_metadata(CTX_METADATA[op['v']])
+    elif k in ('db2_store', 'db2_retrieve'):
+        # a second, bare database directory next to the context, not created in advance: every
+        # operation constructs its own handle (first use of a fresh database by several threads)
+        db2 = type(ctx.model_database)(os.path.join(str(ctx.path.parent), 'db2'))
+        if k == 'db2_store':
+            db2.store_model_entry(e['me'])
+        else:
+            return ('entry', db2.retrieve_model_entry(_P['ModelHash'](e['key'])))
     elif k == 'retrieve':
         return ('retrieved', None)
     elif k == 'retrieve_log':
@@ -818,10 +833,15 @@ class Infl:
         self.datasets = set()
         self.names = {}            # name -> key  (bindings that may or may not exist)
         self.ctx_meta = set()      # '' | 'sub1': an interrupted context metadata write
+        self.db2 = {}              # key -> results JSONs of interrupted stores into the bare database
         for o in self.ops:
             k = o['kind']
             if k == 'ctx_metadata':
                 self.ctx_meta.add(SUB if o.get('sub') else '')
+                continue
+            if k == 'db2_store':
+                e = POOL[o['model']]
+                self.db2.setdefault(e['key'], set()).add(e['results_json'] if e['has_results'] else None)
                 continue
             if k == 'log':
                 self.logs.append((o['sev'], log_path_of(o), o['msg']))
@@ -1122,6 +1142,24 @@ def _check_state(Ctx, root, ref, infl, V, where, wl_models, do_progress):
             raise
     except Exception as ex:
         V.viol(f'common-options-changed/{type(ex).__name__}', f'{where}: retrieve_common_options: {ex!r}')
+    # ---- the second, bare database (only used by the concurrent mode)
+    if ref.db2 or infl.db2:
+        db2 = type(db)(os.path.join(root, 'db2'))
+        for key in sorted(set(ref.db2) | set(infl.db2)):
+            acc = set(ref.db2.get(key, set())) | set(infl.db2.get(key, set()))
+            try:
+                me = db2.retrieve_model_entry(ModelHash(key))
+            except Exception as ex:
+                if key in ref.db2 and not (isinstance(ex, _P['Pending']) and key in infl.db2):
+                    V.viol(f'committed-unretrievable/{type(ex).__name__}',
+                           f'{where}: entry {key[:8]} committed to the bare database raises {ex!r}')
+                continue
+            prob = content_problem(me, key, acc)
+            if prob is not None:
+                V.viol('partial-or-wrong-entry-visible' if key not in ref.db2 else 'committed-entry-corrupted',
+                       f'{where}: bare database: retrieve of {key[:8]} succeeded but {prob}')
+            else:
+                V.count('r2.db2_ok')
     for which in ('', SUB):
         if which in ref.ctx_meta or which in infl.ctx_meta:
             continue
